@@ -400,7 +400,7 @@ func retryDecision(c *Ctx, aspects map[string]bool) {
 			// the failed-attempt counter is bumped by exactly one, and the exceeded flag is stored
 			var cntStores, flagStores []*Event
 			for _, e := range p.Events() {
-				if e.Kind == EvStore && e.Addr.Op == "faddr" && e.Addr.Args[0] == ee.X {
+				if e.Kind == EvStore && e.Addr.Op == "faddr" && rootedAt(e.Addr, ee.X) {
 					switch FieldName(e.Addr.Aux) {
 					case "failedAttempts":
 						cntStores = append(cntStores, e)
